@@ -16,6 +16,8 @@ TRACE_FILES = (
     'forml/runtime/_service/prediction.py',
     'forml/application/_strategy.py',
     'forml/application/_descriptor.py',
+)
+TRACE_ENTRY_FILES = (  # pre-emption at function entry only (cheap): enough to interleave registry reads
     'forml/io/asset/_access.py',
     'forml/io/asset/_directory/__init__.py',
     'forml/io/asset/_directory/level/case.py',
@@ -42,14 +44,15 @@ def install() -> None:
 
     real_thread = threading.Thread
     real_spawn, real_fork = mpcontext.SpawnProcess, mpcontext.ForkProcess
-    threading.Thread = sim.SimThread
+    real_lock, real_rlock = threading.Lock, threading.RLock
+    threading.Thread, threading.Lock, threading.RLock = sim.SimThread, sim.SimLock, sim.SimRLock
     mpcontext.SpawnProcess, mpcontext.ForkProcess = sim.SimSpawnProcess, sim.SimForkProcess
     try:
         import forml  # noqa: F401 pylint: disable=import-outside-toplevel,unused-import
         from forml.application import _strategy  # pylint: disable=import-outside-toplevel
         from forml.runtime._service import dispatch, prediction  # pylint: disable=import-outside-toplevel
     finally:
-        threading.Thread = real_thread
+        threading.Thread, threading.Lock, threading.RLock = real_thread, real_lock, real_rlock
         mpcontext.SpawnProcess, mpcontext.ForkProcess = real_spawn, real_fork
     prediction.multiprocessing = sim.multiprocessing_shim
     dispatch.futures = sim.futures_shim
